@@ -96,8 +96,35 @@ def refused_tables():
     return tabs, n_impls
 
 
+def input_contracts_init():
+    """`init_inner` must ASSIGN `self.input_contracts` from exactly the contract inputs of the new transaction"""
+    src = strip_comments(read("fuel-vm/src/interpreter/initialization.rs"))
+    flat = re.sub(r"\s+", "", src)
+    want = ("self.input_contracts=self.tx.inputs().iter().filter_map(|i|matchi{Input::Contract(contract)=>Some(contract.contract_id),_=>None,}).collect();")
+    if flat.count(want) != 1:
+        raise TranslateError("init_inner no longer assigns `self.input_contracts` from the transaction's contract inputs "
+                             "(`self.input_contracts = self.tx.inputs().iter().filter_map(..Input::Contract..).collect()`)")
+    others = [m for m in re.finditer(r"self\.input_contracts\b(?!_)", src)]
+    if len(others) != 1:
+        raise TranslateError(f"initialization.rs mentions self.input_contracts {len(others)} times (expected the single assignment)")
+    # nobody else writes the field
+    root = os.path.join(REPO, "fuel-vm", "src", "interpreter")
+    for d, _, fs in sorted(os.walk(root)):
+        for f in sorted(fs):
+            if not f.endswith(".rs") or f == "tests.rs" or "/tests" in d or f == "initialization.rs":
+                continue
+            t = strip_comments(open(os.path.join(d, f), encoding="utf-8").read())
+            m = re.search(r"#\[cfg\(test\)\]\s*mod\s+\w+\s*\{", t)
+            if m:
+                t = t[:m.start()]
+            if re.search(r"\.input_contracts\s*(=[^=]|\.\s*(insert|extend|clear|remove|retain|append)\s*\()", t):
+                raise TranslateError(f"{f} writes the interpreter's input_contracts outside init_inner")
+    return "assigned-from-contract-inputs"
+
+
 def main():
     sites = check_sites()
+    init_kind = input_contracts_init()
     allowed = predicate_allowed()
     tabs, n = refused_tables()
     q = lambda xs: "[" + ", ".join('"%s"' % x for x in xs) + "]"
@@ -110,7 +137,10 @@ def main():
           "/-- tables for which `PredicateStorage` implements `NoStorage` (every access returns UnsupportedStorageOperation) -/",
           "def predicateRefusedTables : List String := " + q(tabs), "",
           "/-- number of refusing trait impls whose every method was checked to be `Err(UnsupportedStorageOperation)` -/",
-          "def predicateRefusingImpls : Nat := %d" % n, "", "end FuelVerif.Gen"]
+          "def predicateRefusingImpls : Nat := %d" % n, "",
+          "/-- how `init_inner` sets `input_contracts` (the set `check_contract_in_inputs` consults): a fresh assignment from the new",
+          "transaction's contract inputs, and no other code writes the field -/",
+          "def inputContractsInit : String := \"%s\"" % init_kind, "", "end FuelVerif.Gen"]
     changed = write_if_changed("AccessSites.lean", "\n".join(L) + "\n")
     print("access_sites: %d check sites, %d predicate opcodes, refused tables %s%s" % (len(sites), len(allowed), tabs, " (changed)" if changed else ""))
 
